@@ -327,6 +327,30 @@ func ForEco(name string) Scenario {
 		}
 		return fmt.Sprint(out)
 	}})
+	// many range constructions in one operation, then the shared ranges are asked again (arenas,
+	// slabs and pools that are recycled while earlier values are still alive)
+	ops = append(ops, Op{Name: "ManyRanges x80", Heavy: true, Run: func(s *Shared) string {
+		n := 0
+		for i := 0; i < 80; i++ {
+			for _, r := range []string{r1, r2} {
+				if r == "" {
+					continue
+				}
+				if _, err := s.Eco.ParseRange(r); err == nil {
+					n++
+				}
+			}
+		}
+		out := fmt.Sprint(n)
+		for _, k := range s.order {
+			if rg := s.Rngs["r:"+k]; rg != nil {
+				if v := s.Vers[vb]; v != nil {
+					out += fmt.Sprint("|", rg.Contains(v))
+				}
+			}
+		}
+		return out
+	}})
 	// a Compare-equal respelling of the first bound, parsed after it: both keep their own text
 	if alt := map[string]string{"npm": "v1.0.0", "golang": "1.0.0", "nuget": "v1.0.0", "pypi": "1.0.0", "debian": "0:1.0", "rpm": "0:1.0", "maven": "1.0.0", "gem": "v1.0", "github": "v1.0.0", "mattermost": "v1.0.0", "composer": "v1.0.0", "alpm": "0:1.0", "gentoo": "1.0-r0", "alpine": "1.0-r0", "hex": "1.0.0+b", "cargo": "1.0.0+b", "semver": "1.0.0+b", "cran": "1-0", "conan": "1.0.0+b", "apache": "1.0.0"}[name]; alt != va {
 		ops = append(ops, Op{Name: fmt.Sprintf("Respell(%q,%q)", va, alt), Run: func(s *Shared) string {
